@@ -146,7 +146,23 @@ def run(p: Program, rep: Report, tier: str) -> None:
                     accepted = "eq+seg"
                 elif t and f[0] == "cmp" and f[1] == "In" and _next_char(f[2]) and f[3] in (("const", "/"),):
                     accepted = "eq+seg"  # '' in '/' and '/' in '/'
-        if accepted == "eq+seg":
+            if accepted == "bare":
+                # ... or the same two cases stated through the prefix LENGTH: len(prefix) == len(path) (the whole path) and
+                # path.startswith("/", len(prefix)) (the character at that index is the separator)
+                def _is_len(t, of):
+                    return t[0] == "call" and t[1] == ("builtin", "len") and t[2] == (of,)
+                for f, t in pa.facts:
+                    if t and f[0] == "cmp" and f[1] == "Eq" and ((_is_len(f[2], prefix) and _is_len(f[3], ("param", "path"))) or (_is_len(f[3], prefix) and _is_len(f[2], ("param", "path")))):
+                        accepted = "eq"
+                    elif t and f[0] == "call" and f[1] == ("attr", ("param", "path"), "startswith") and len(f[2]) == 2 and f[2][0] == ("const", "/") and _is_len(f[2][1], prefix):
+                        accepted = "seg"
+                    elif t and f[0] == "cmp" and f[1] == "Eq" and f[3] == ("const", "/") and f[2][0] == "sub" and f[2][1] == ("param", "path") and _is_len(f[2][2], prefix):
+                        accepted = "seg"   # path[len(prefix)] == "/" (guarded by a length test elsewhere on the path)
+                if accepted == "bare" and any(_is_len(x, prefix) for f, _t in pa.facts for x in subterms(f) if isinstance(x, tuple) and len(x) >= 3):
+                    accepted = "len-form"
+        if accepted == "len-form":
+            rep.undecide("R9.1", "startswith(prefix) is combined with a test on len(prefix) that is not in the idiom table: " + "; ".join(pa.fact_text())[:120])
+        elif accepted == "eq+seg":
             forms.update(("eq", "seg"))
             rep.ok("R9.1", "accepting path guarded by startswith(prefix) and the character that follows the prefix being '' (path == prefix)")
             rep.ok("R9.1", "accepting path guarded by startswith(prefix) and the character that follows the prefix being '/' (a new segment)")
